@@ -232,11 +232,7 @@ def work_check(ctx, it, syn, line, seg):
         xc = int(h.get("xc", "0"))
         rep = {"module": it["m"]["text"], "type": it["tn"], "der": it["der"][:4000], "syntax": syn, "command_line": line[:4000], "c": seg[:300],
                "tlvs": n, "nesting": d, "bound": bound, "work": "more than 3000000 (the driver's limit)" if died else work, "explicitly_tagged_choices_nested": xc}
-        if syn == "der" and xc >= 6:
-            run.known_finding("C07-der-tagged-choice-exponential", rep)
-            run.count("work_exponential_der")
-        else:
-            run.violation("oracle:bounded_work(%s)" % syn, dict(rep, what="one encoder call made %s type-encoder invocations for a value of %d TLVs nested %d deep (bound %d): not a terminating call in practice" % (rep["work"], n, d, bound)))
+        run.violation("oracle:bounded_work(%s)" % syn, dict(rep, what="one encoder call made %s type-encoder invocations for a value of %d TLVs nested %d deep (bound %d): not a terminating call in practice" % (rep["work"], n, d, bound)))
     return died or work > WORK_SWEEP_MAX
 
 
